@@ -59,7 +59,6 @@ Section Table.
 End Table.
 Arguments t_pend {P}. Arguments t_slot {P}. Arguments mkT {P}.
 Arguments t_empty {P}. Arguments t_register {P}. Arguments t_route {P}. Arguments t_take {P}.
-Arguments RIgnored {P}. Arguments RDelivered {P}. Arguments RBlocked {P}.
 
 Definition two32 : N := 4294967296.
 Definition two31 : N := 2147483648.
@@ -69,7 +68,7 @@ Definition two31 : N := 2147483648.
 
 (* a response on the wire: (message type tag, marker).  The tag of the response type that answers
    a request of kind k is k itself. *)
-Definition payload := (N * N)%type.
+Notation payload := (N * N)%type (only parsing).
 
 (* request kinds: 0 ConnectRequest (written by waitForConnected, never registered in replyCh),
    1 Ping, 2 UpstreamOpen, 3 UpstreamResume, 4 UpstreamClose, 5 DownstreamOpen, 6 DownstreamResume,
@@ -78,15 +77,24 @@ Inductive wstatus :=
 | WWaiting                (* inside sendRequest's select *)
 | WGot (ty m : N)         (* returned the typed response *)
 | WCancelled              (* returned ctx.Err() *)
-| WPanicked               (* res.(*message.X) failed: unchecked type assertion *)
+| WPanicked               (* the caller's goroutine panicked (never produced by the code as it is now:
+                             c06_never_panics; the former unchecked type assertion did, F15) *)
+| WMalformed              (* returned a malformed-message error: the response bearing its id has the
+                             wrong message type *)
 | WUnrouted.              (* ConnectRequest: answer read directly from the transport *)
 
 Definition wstatus_eqb (a b : wstatus) : bool :=
   match a, b with
-  | WWaiting, WWaiting | WCancelled, WCancelled | WPanicked, WPanicked | WUnrouted, WUnrouted => true
+  | WWaiting, WWaiting | WCancelled, WCancelled | WPanicked, WPanicked | WUnrouted, WUnrouted
+  | WMalformed, WMalformed => true
   | WGot t m, WGot t' m' => (t =? t') && (m =? m')
   | _, _ => false
   end.
+
+(* what a caller's typed wrapper does with a response of the wrong type: typedResponse[T] returns a
+   malformed-message error (F15 repaired; the former code's unchecked `res.(T)` panicked, which
+   was this definition set to WPanicked). *)
+Definition wrong_type_outcome : wstatus := WMalformed.
 
 Record wstate := mkW {
   w_cur : N;                        (* IDGenerator.currentValue *)
@@ -129,7 +137,7 @@ Definition wstep (s : wstate) (e : wev) : wstate :=
           match t_take c (w_tab s) with
           | (t', Some (ty, m)) =>
               mkW (w_cur s) (w_n s) t'
-                  (set_status c kind (if ty =? kind then WGot ty m else WPanicked) (w_st s))
+                  (set_status c kind (if ty =? kind then WGot ty m else wrong_type_outcome) (w_st s))
                   (w_ids s) (w_stuck s)
           | (_, None) => s
           end
@@ -167,7 +175,7 @@ Definition wsolo_step (id c kind : N) (s : wsolo) (e : wev) : wsolo :=
   | Wake c' =>
       if c' =? c
       then match s_st s, s_slot s with
-           | WWaiting, Some (ty, m) => mkS (s_pend s) None (if ty =? kind then WGot ty m else WPanicked)
+           | WWaiting, Some (ty, m) => mkS (s_pend s) None (if ty =? kind then WGot ty m else wrong_type_outcome)
            | _, _ => s
            end
       else s
@@ -207,7 +215,10 @@ Definition wspec (id : N) (c : nat) (evs : list wev) : option wstatus :=
       else Some (s_st (wsolo_run id (N.of_nat c) kind wsolo_init rest))
   end.
 
-(* every response is of the type that answers the request it bears the id of (broker_wf) *)
+(* the history without the cancellations of caller c *)
+Definition drop_cancel (c : N) (evs : list wev) : list wev :=
+  filter (fun e => match e with Cancel c' => negb (c' =? c) | _ => true end) evs.
+
 Fixpoint kinds_of (evs : list wev) : list N :=
   match evs with
   | [] => []
@@ -269,13 +280,13 @@ Definition wire_judge (c : wire_case) : N :=
 (* C16 - end-to-end calls on iscp.Conn *)
 
 (* a DownstreamCall: (call id, request call id, marker); request call id 0 stands for "" *)
-Definition dcall := (N * N * N)%type.
+Notation dcall := (N * N * N)%type (only parsing).
 Definition d_req (d : dcall) : N := snd (fst d).
 Definition dcall_eqb (a b : dcall) : bool :=
   (fst (fst a) =? fst (fst b)) && (snd (fst a) =? snd (fst b)) && (snd a =? snd b).
 
 (* an UpstreamCallAck without its call id: (result code, marker); code 0 stands for Succeeded *)
-Definition ack := (N * N)%type.
+Notation ack := (N * N)%type (only parsing).
 
 Inductive ekind :=
 | KCall                   (* SendCall *)
@@ -304,6 +315,14 @@ Definition estatus_eqb (a b : estatus) : bool :=
   | EWaitAck, EWaitAck | EWaitReply, EWaitReply => true
   | EDone r, EDone r' => eresult_eqb r r'
   | _, _ => false
+  end.
+
+(* which of its two waits a caller that has not returned is in cannot be seen from outside: the
+   harness reports EWaitAck for every caller still blocked *)
+Definition estatus_sim (obs model : estatus) : bool :=
+  match obs, model with
+  | EWaitAck, EWaitReply => true
+  | _, _ => estatus_eqb obs model
   end.
 
 Definition inbox_cap : N := 1024.
@@ -362,9 +381,9 @@ Definition estep (s : estate) (e : eev) : estate :=
       let c := e_n s in
       if e_closed s
       then (* SendCall/SendReplyCall: isClosed() -> ErrConnectionClosed.  SendCallAndWaitReplayCall has
-              no such check: it registers both channels, then send() waits for Connected under the
-              close-status context, which is cancelled at once: it returns context.Canceled (the
-              closed-hook of WaitUntilOrClosed is evaluated on the target status, F5).  Nothing written. *)
+              no such check: it registers both channels, then send() -> WaitUntilOrClosed(Connected)
+              sees the closed status and returns ErrConnectionClosed (since the fix of F5 the hook is
+              evaluated on the current status).  Nothing is written. *)
         match k with
         | KCallWait =>
             if has_key id (t_pend (e_rep s))
@@ -374,7 +393,7 @@ Definition estep (s : estate) (e : eev) : estate :=
             then mkE (c + 1) (e_ack s) (t_register id c (e_rep s)) (insert c (k, id, EDone RExists) (e_st s))
                      (e_sent s) (e_calls s) (e_replies s) (e_rcalls s) (e_rreplies s) (e_closed s) (e_stuck s)
             else mkE (c + 1) (t_register id c (e_ack s)) (t_register id c (e_rep s))
-                     (insert c (k, id, EDone RCancelled) (e_st s))
+                     (insert c (k, id, EDone RClosed) (e_st s))
                      (e_sent s) (e_calls s) (e_replies s) (e_rcalls s) (e_rreplies s) (e_closed s) (e_stuck s)
         | _ => mkE (c + 1) (e_ack s) (e_rep s) (insert c (k, id, EDone RClosed) (e_st s)) (e_sent s)
                    (e_calls s) (e_replies s) (e_rcalls s) (e_rreplies s) (e_closed s) (e_stuck s)
@@ -411,7 +430,7 @@ Definition estep (s : estate) (e : eev) : estate :=
           match t_take c (e_ack s) with
           | (t', Some (code, m)) =>
               let st' := match k with
-                         | KCallWait => if code =? 0 then EWaitReply else EDone (RFailed code m)
+                         | KCallWait => if code =? 0 then EWaitReply else EDone (RFailed 0 m)   (* errors.New(ack.ResultString): the code is dropped *)
                          | _ => if code =? 0 then EDone RAcked else EDone (RFailed code m)
                          end in
               mkE (e_n s) t' (e_rep s) (insert c (k, id, st') (e_st s)) (e_sent s) (e_calls s) (e_replies s)
@@ -497,7 +516,7 @@ Definition esolo_step (id c : N) (k : ekind) (s : esolo) (e : eev) : esolo :=
             | Some (code, m) =>
                 mkES (es_apend s) None (es_rpend s) (es_rslot s) (es_closed s)
                      (match k with
-                      | KCallWait => if code =? 0 then EWaitReply else EDone (RFailed code m)
+                      | KCallWait => if code =? 0 then EWaitReply else EDone (RFailed 0 m)   (* errors.New(ack.ResultString): the code is dropped *)
                       | _ => if code =? 0 then EDone RAcked else EDone (RFailed code m)
                       end)
             | None => s
@@ -562,8 +581,12 @@ Definition espec_ok (c : nat) (evs : list eev) (st : estatus) : bool :=
   | None => false
   | Some (k, id, closed, rest) =>
       if closed then is_error st
-      else estatus_eqb st (es_st (esolo_run id (N.of_nat c) k (esolo_init k) rest))
+      else estatus_sim st (es_st (esolo_run id (N.of_nat c) k (esolo_init k) rest))
   end.
+
+(* the history without the acks bearing call id [i] *)
+Definition drop_acks (i : N) (evs : list eev) : list eev :=
+  filter (fun e => match e with EAck i' _ _ => negb (i' =? i) | _ => true end) evs.
 
 Fixpoint call_ids (evs : list eev) : list N :=
   match evs with
@@ -604,7 +627,7 @@ Definition e2e_model (c : e2e_case) : estate := erun einit (ec_evs c).
 
 Definition e2e_corr (c : e2e_case) : bool :=
   let s := e2e_model c in
-  eout_match (fun i st => match estatus_of s (N.of_nat i) with Some st' => estatus_eqb st st' | None => false end)
+  eout_match (fun i st => match estatus_of s (N.of_nat i) with Some st' => estatus_sim st st' | None => false end)
              0 (ec_out c)
   && list_beq _ pairN_eqb (e_sent s) (ec_sent c)
   && list_beq _ dcall_eqb (e_rcalls s) (ec_rcalls c)
